@@ -20,6 +20,7 @@ import Pandora.Proofs.C13Ammo
 import Pandora.Proofs.C13Funcs
 import Pandora.Proofs.C13Multi
 import Pandora.Proofs.C13Jsonline
+import Pandora.Proofs.C13Grpc
 import Pandora.Bridge.C13
 
 namespace Pandora.Props.C13
@@ -1077,5 +1078,167 @@ theorem C13_terminates_counterexample : ¬ C13_terminates_statement false := by
 theorem C13_terminates_multipass_counterexample :
     ¬ ∀ (data : Bytes) (passes : Nat) (s : MPR), MPR.WF data s → ∀ k : Nat, (loadByte false data passes (k + 2) s).1 ≠ .again :=
   fun h => h [] 0 MPR.init (MPR.init_WF []) 0 (C13_unrepaired_multipass_spins 2)
+
+/-! ## grpc/json as the engine uses it: pooled ammo objects, passes, limit, chosen cases (round 3)
+
+The provider takes every ammo object from a `sync.Pool` into which the engine's instances release the objects they have
+shot. The pool of the model is adversarial: the k-th `Pool.Get()` answers `pool k`, any object in any state - fresh, or
+still carrying an earlier entry (tag, call, metadata, payload), its id and its invalid flag. -/
+
+/-- what `Provider.start` sends to the sink does not depend on what the pool hands out -/
+def C13_grpc_pool_invisible_statement (fixed : Bool) : Prop :=
+  ∀ (coe : Bool) (json : Bytes → Option GFields) (chosen : Bytes → Bool) (limit passes : Nat) (p q : Nat → GObj)
+    (lines : List Bytes) (fuel : Nat),
+    gStart fixed coe json chosen limit passes p lines fuel 0 0 0 = gStart fixed coe json chosen limit passes q lines fuel 0 0 0
+
+/-- every file (list of scanner tokens), every jsoniter oracle, every option, every two pools: the same run -/
+theorem C13_grpc_pool_invisible : C13_grpc_pool_invisible_statement true := by
+  intro coe json chosen limit passes p q lines fuel
+  rw [gStart_pure, gStart_pure]
+
+/-- "never alters how well-formed entries are delivered", "skipped where continue-on-error is requested": every object
+sent to the sink is what its OWN line says - a line jsoniter decodes arrives with exactly its fields and VALID, whatever
+the pooled object held; a line it refuses arrives (continue_on_error) EMPTY and invalidated, never with an earlier entry's
+call and payload - in every pass, under every limit and chosen-cases filter. -/
+theorem C13_grpc_delivered_as_line (coe : Bool) (json : Bytes → Option GFields) (chosen : Bytes → Bool) (limit passes : Nat)
+    (pool : Nat → GObj) (lines : List Bytes) (fuel : Nat) (o : GObj)
+    (h : o ∈ (gStart true coe json chosen limit passes pool lines fuel 0 0 0).out) :
+    ∃ l ∈ lines, chosen o.f.tag = true ∧
+      ((∃ f, json (dropCR l) = some f ∧ o = ⟨f, 0, false⟩) ∨
+       (coe = true ∧ json (dropCR l) = none ∧ o = ⟨GFields.zero, 0, true⟩)) := by
+  rw [gStart_pure] at h
+  obtain ⟨l, hl, ho, hc⟩ := gStartPure_mem coe json chosen limit passes lines fuel 0 0 0 o h
+  refine ⟨l, hl, hc, ?_⟩
+  unfold gLineObj at ho
+  cases hj : json (dropCR l) with
+  | some f =>
+    left
+    simp only [hj, Option.some.injEq] at ho
+    exact ⟨f, rfl, ho.symm⟩
+  | none =>
+    right
+    simp only [hj] at ho
+    cases coe with
+    | true => simp only [if_true, Option.some.injEq] at ho; exact ⟨rfl, rfl, ho.symm⟩
+    | false => simp at ho
+
+/-- one pass without limit and chosen cases: the pooled provider IS the line model of `C13_rejected_or_skipped_grpcjson`,
+`C13_prefix_preserved` and `C13_no_panic_grpcjson` (so those theorems speak about the pooled provider too) -/
+theorem C13_grpc_pooled_is_grpcLines (coe : Bool) (json : Bytes → Option GFields) (pool : Nat → GObj) (lines : List Bytes) :
+    grpcLines coe (fun l => (json l).map (·.tag)) lines =
+      ⟨(gScan true coe json (fun _ => true) 0 pool lines 0 0).out.map gView,
+       gEndOf (gScan true coe json (fun _ => true) 0 pool lines 0 0).end_⟩ := by
+  rw [gScan_pure]
+  exact gScanPure_grpcLines coe json lines 0 0
+
+/-- "never makes a provider loop": with a pass limit `Provider.start` ends after `passes` passes, with an ammo limit after
+at most `limit + 1` (a pass that reaches an entry it delivers once reaches it every time; a first pass that delivers
+nothing is "no ammo in file") - every file, oracle, pool, filter -/
+theorem C13_terminates_grpc_start (coe : Bool) (json : Bytes → Option GFields) (chosen : Bytes → Bool) (limit passes : Nat)
+    (pool : Nat → GObj) (lines : List Bytes) (h : limit ≠ 0 ∨ passes ≠ 0) :
+    (gStart true coe json chosen limit passes pool lines (gFuel limit passes) 0 0 0).end_ ≠ .fuel := by
+  rw [gStart_pure]
+  exact gStartPure_terminates coe json chosen limit passes lines 0 h
+
+/-- … and it ends with the end of the data or an error value -/
+theorem C13_no_panic_grpc_start (coe : Bool) (json : Bytes → Option GFields) (chosen : Bytes → Bool) (limit passes : Nat)
+    (pool : Nat → GObj) (lines : List Bytes) (h : limit ≠ 0 ∨ passes ≠ 0) :
+    let e := (gStart true coe json chosen limit passes pool lines (gFuel limit passes) 0 0 0).end_
+    e = .ok ∨ ∃ c, e = .err c := by
+  have ht := C13_terminates_grpc_start coe json chosen limit passes pool lines h
+  rw [gStart_pure] at ht ⊢
+  have := gStartPure_end coe json chosen limit passes lines (gFuel limit passes) 0 0 0
+  simp only at this ⊢
+  rcases this with h1 | h1
+  · exact absurd h1 ht
+  · exact h1
+
+/-! the same facts about the definitions regenerated from the current source (`Gen.C13Src`, area `c13src`) -/
+
+/-- `decodeAmmo` as it stands hands back the same object whatever it took from the pool -/
+theorem C13_grpc_pool_invisible_source (parsed : Option GFields) (a b : GObj) :
+    Gen.C13Src.decodeAmmo parsed a = Gen.C13Src.decodeAmmo parsed b := by
+  rw [Bridge.C13.decodeAmmo_bridge, Bridge.C13.decodeAmmo_bridge, gDecodeAmmo_fixed, gDecodeAmmo_fixed]
+
+/-- `(*Ammo).Reset` as it stands clears the invalid flag and the id of a recycled object, and the two accessors agree -/
+theorem C13_grpc_reset_clears_source (a : GObj) (tag call metadata payload : Bytes) :
+    Gen.C13Src.ammoIsInvalid (Gen.C13Src.ammoReset a tag call metadata payload) = false ∧
+    Gen.C13Src.ammoIsValid (Gen.C13Src.ammoReset a tag call metadata payload) = true ∧
+    (Gen.C13Src.ammoReset a tag call metadata payload).id = 0 := by
+  rw [Bridge.C13.ammoIsValid_bridge, Bridge.C13.ammoIsInvalid_bridge, Bridge.C13.ammoReset_bridge]
+  simp [gReset]
+
+/-- the body of the scan loop as it stands: what goes to the sink for a line is what the line says -/
+theorem C13_grpc_delivered_as_line_source (coe : Bool) (chosen : Bytes → Bool) (parsed : Option GFields) (pooled : GObj)
+    (ammoNum : Nat) (o : GObj) (n' : Int)
+    (h : Gen.C13Src.startBody coe chosen parsed pooled ammoNum = some (some o, n')) :
+    n' = ammoNum + 1 ∧ chosen o.f.tag = true ∧
+      ((∃ f, parsed = some f ∧ o = ⟨f, 0, false⟩) ∨ (coe = true ∧ parsed = none ∧ o = ⟨GFields.zero, 0, true⟩)) := by
+  rw [Bridge.C13.startBody_bridge] at h
+  unfold gBody at h
+  rw [gDecodeAmmo_fixed] at h
+  cases parsed with
+  | some f =>
+    simp only [Bool.false_and, Bool.false_eq_true, if_false] at h
+    split at h
+    · simp at h
+    · rename_i hc
+      simp only [Option.map_some, Option.some.injEq, Prod.mk.injEq] at h
+      obtain ⟨h1, h2⟩ := h
+      subst h1
+      exact ⟨by omega, by simpa using hc, .inl ⟨f, rfl, rfl⟩⟩
+  | none =>
+    cases coe with
+    | false => simp at h
+    | true =>
+      simp only [Bool.not_true, Bool.and_false, Bool.false_eq_true, if_false, if_true, gInvalidate] at h
+      split at h
+      · simp at h
+      · rename_i hc
+        simp only [Option.map_some, Option.some.injEq, Prod.mk.injEq] at h
+        obtain ⟨h1, h2⟩ := h
+        subst h1
+        exact ⟨by omega, by simpa using hc, .inr ⟨rfl, rfl, rfl⟩⟩
+
+/-- a round of the outer loop as it stands: the file is scanned again only after a seek to its start, and only when the
+passes so far have delivered something -/
+theorem C13_terminates_grpcjson_pass_source (limit passes passNum ammoNum : Nat) (scanErr : Bool) :
+    Gen.C13Src.grpcPassEnd limit passes passNum ammoNum scanErr ≠ 4 ∧
+    (Gen.C13Src.grpcPassEnd limit passes passNum ammoNum scanErr = 0 → 0 < ammoNum) := by
+  rw [Bridge.C13.grpcPassEnd_bridge]
+  cases hp : grpcPassEnd true limit passes (passNum + 1) ammoNum scanErr with
+  | again =>
+    have := C13_terminates_grpcjson_pass limit passes (passNum + 1) ammoNum scanErr hp
+    simp [Bridge.C13.grpcEndCode, this]
+  | stop e =>
+    cases e <;> simp [Bridge.C13.grpcEndCode]
+    split <;> simp
+
+/-- the statement for the tree before 9da7ed8 (`decodeAmmo` left the pooled object alone when the line could not be
+decoded) is false: with `continue_on_error` the refused line `x` is delivered with whatever the recycled object held -/
+theorem C13_grpc_pool_invisible_counterexample : ¬ C13_grpc_pool_invisible_statement false := by
+  intro h
+  have := h true (fun _ => none) (fun _ => true) 0 1 (fun _ => ⟨GFields.zero, 0, false⟩)
+    (fun _ => ⟨⟨[116], [99], [], [112]⟩, 7, false⟩) [[120]] 1
+  revert this
+  decide
+
+/-- non-vacuity: a file of three lines (`good`, `bad`, `good`) read twice with continue_on_error from a pool of dirty
+objects - six entries, the well-formed ones valid with their own fields, the refused ones empty and invalidated -/
+example :
+    (gStart true true (fun l => if l = [103] then some ⟨[116], [99], [], []⟩ else none) (fun _ => true) 0 2
+      (fun k => ⟨⟨[115], [115], [115], [115]⟩, k, true⟩) [[103], [98, 13], [103]] (gFuel 0 2) 0 0 0) =
+    ⟨[⟨⟨[116], [99], [], []⟩, 0, false⟩, ⟨GFields.zero, 0, true⟩, ⟨⟨[116], [99], [], []⟩, 0, false⟩,
+      ⟨⟨[116], [99], [], []⟩, 0, false⟩, ⟨GFields.zero, 0, true⟩, ⟨⟨[116], [99], [], []⟩, 0, false⟩], .ok⟩ := by decide
+
+/-- non-vacuity: limit 4 without a pass limit over a two-line file with a chosen-cases filter that keeps one line -/
+example :
+    (gStart true true (fun l => if l = [103] then some ⟨[116], [], [], []⟩ else some ⟨[117], [], [], []⟩) (fun t => t == [116]) 4 0
+      (fun _ => ⟨GFields.zero, 0, true⟩) [[103], [104]] (gFuel 4 0) 0 0 0).out.length = 4 := by decide
+
+example : Gen.C13Src.startBody true (fun _ => true) none ⟨⟨[115], [115], [115], [115]⟩, 9, true⟩ (3 : Nat) =
+    some (some ⟨GFields.zero, 0, true⟩, 4) := by decide
+
+example : Gen.C13Src.grpcPassEnd 0 0 0 3 false = 0 := by decide
 
 end Pandora.Props.C13
